@@ -153,9 +153,31 @@ func runC18Walk(t *testing.T, sc *world.Scenario) *check.Result {
 				SetPwm: &configuration.ExecConfig{Exec: path, Args: []string{"%pwm%"}}, GetPwm: &configuration.ExecConfig{Exec: path, Args: []string{}}}})
 			callErr = f.SetPwm(99)
 		case 2:
-			configuration.CurrentConfig = configuration.Configuration{
-				Sensors: []configuration.SensorConfig{{ID: "s", Cmd: &configuration.CmdSensorConfig{Exec: "/bin/true"}}},
-				Curves:  []configuration.CurveConfig{{ID: "c", Linear: &configuration.LinearCurveConfig{Sensor: "s", Min: 1, Max: 2}}},
+			// what the configuration declares: a cmd sensor a curve uses; a cmd sensor no curve uses (it is
+			// created, polled and exported all the same); a cmd fan
+			cmdSensor := configuration.SensorConfig{ID: "s", Cmd: &configuration.CmdSensorConfig{Exec: "/bin/true"}}
+			fileSensor := configuration.SensorConfig{ID: "t", File: &configuration.FileSensorConfig{Path: valueFile}}
+			switch (i / 3) % 3 {
+			case 0:
+				configuration.CurrentConfig = configuration.Configuration{
+					Sensors: []configuration.SensorConfig{cmdSensor},
+					Curves:  []configuration.CurveConfig{{ID: "c", Linear: &configuration.LinearCurveConfig{Sensor: "s", Min: 1, Max: 2}}},
+				}
+				res.Probe("config-declares:cmd-sensor-in-use")
+			case 1:
+				configuration.CurrentConfig = configuration.Configuration{
+					Sensors: []configuration.SensorConfig{fileSensor, cmdSensor},
+					Curves:  []configuration.CurveConfig{{ID: "c", Linear: &configuration.LinearCurveConfig{Sensor: "t", Min: 1, Max: 2}}},
+				}
+				res.Probe("config-declares:cmd-sensor-unused")
+			default:
+				configuration.CurrentConfig = configuration.Configuration{
+					Sensors: []configuration.SensorConfig{fileSensor},
+					Curves:  []configuration.CurveConfig{{ID: "c", Linear: &configuration.LinearCurveConfig{Sensor: "t", Min: 1, Max: 2}}},
+					Fans: []configuration.FanConfig{{ID: "f", Curve: "c", ControlAlgorithm: &configuration.ControlAlgorithmConfig{Direct: &configuration.DirectControlAlgorithmConfig{}},
+						Cmd: &configuration.CmdFanConfig{SetPwm: &configuration.ExecConfig{Exec: "/bin/true", Args: []string{"%pwm%"}}, GetPwm: &configuration.ExecConfig{Exec: "/bin/true"}}}},
+				}
+				res.Probe("config-declares:cmd-fan")
 			}
 			callErr = configuration.Validate(cpath)
 			res.Probe("config-file-rule-judged")
